@@ -95,6 +95,12 @@ def main(argv):
             eng.pool = p
             eng.run()
             t_run = time.time() - t0
+            if os.environ.get("NSIM_LIST_SITES"):
+                for k in sorted(eng.found, key=lambda k: (k[1], str(k[2]))):
+                    v = eng.found[k]
+                    print(f"SITE {eng.found_count[k]:6d} {k[1]} | {k[2]} | run {v.idx} {json.dumps(v.detail, default=str)[:160]}")
+                if os.environ.get("NSIM_LIST_SITES") == "only":
+                    return 0
             code, n_unlisted, known_hit = fw.conclude(eng, args.seed, minimise_budget=5.0 if args.no_minimise else 45.0)
             workers = p.workers
             total_runs = p.runs
